@@ -112,7 +112,7 @@ NOT_YET = {}
 # what rounds 3 and 4 of the seeded changes added to the drivers (appended to the level text)
 ADDENDA = {
  "C01": " Added later: rows longer than a page and menu-less sink pages, a menu separator longer than ':', and output sizes at the 16-bit boundary (65535..2^32-1) with a 70 kB page. Round 5: an application whose final page is larger than all others AND ends with a value (one open known finding: the final page is dropped silently when only the value fits).",
- "C02": " Added later: a three-byte menu separator and browse labels that the resource expands, in one slot of the family each.",
+ "C02": " Added later: a three-byte menu separator and browse labels that the resource expands, in one slot of the family each. Round 5: after the refused request one step beyond the last page the way back is walked in the SAME session as well ('previous' must lead to the last page and on to page 0), and a family of longer lists (6-8 rows of 8-10 bytes) is walked under every size in both modes.",
  "C03": " Added later: in the last position of a history also a selector followed by a blank, an input with a formatting verb and an input with template syntax; the catch page must render.",
  "C04": " Added later at the engine level: a flushing persister, an engine with a first function, a first function that refuses a request (the position stays), and ResetOnEmptyInput with the empty input (four further modes). Round 5: a second alphabet with an edge back to the entry node (the entry node below itself on the stack), and a directed history to the deepest stack level (128 descents, then repeats, lateral moves and an ascent) with and without a first function.",
  "C05": " Added later: a multi-byte answer (limits count bytes) and a directed family of four applications (taken and not-taken CATCH after MAP and MOUT, a sink symbol reused as a sized value, a value loaded below the entry node and left before the session ends), all histories of depth 4/5 in both modes with and without an output size.",
@@ -127,7 +127,7 @@ ADDENDA = {
  "C15": " A panic raised in Vm.Run's own frame (opcode dispatch) counts as a decoding panic.",
  "C17": " Added later: an engine with persister kept for the session; the previous page fetched only after the refusal; an application-registered input format (and one that does not compile); every non-alphanumeric single byte; every input handed over in one reused read buffer; and the same question put to engine.Loop (over-long line in the middle of its input).",
  "C18": " Added later: translations for eng, a label shown as its own symbol by default but translated, DbResource over db/fs with translations stored as <symbol>_<code>, and an engine with a first function (its lookup language is checked like any other).",
- "C19": " Added later: the library's MenuResource with per-session closures, a six-byte catch node, a template that fails after producing text, engines with a first function; built with the os shim so that the file operations of a save are scheduling points.",
+ "C19": " Added later: the library's MenuResource with per-session closures, a six-byte catch node, a template that fails after producing text, engines with a first function; built with the os shim so that the file operations of a save are scheduling points. Round 5: scenarios can give each session its own language (two sessions browsing a paginated page whose translated browse labels differ in length); and every session of every scenario is also served alone in a pristine process of its own, whose transcript must equal the one it gets in the long-running process that has served other sessions before (process-wide state that survives between sessions).",
  "C20": " Added later: a silent leaf, a function that sets TERMINATE and then fails, TERMINATE named in both flag lists, every output size 7..22, ResetOnEmptyInput with the empty input, and an engine with a first function.",
 }
 
